@@ -6,4 +6,5 @@ rc=0
 for p in $(./target/release/vsim list | grep '^C'); do
     ./target/release/vsim determinism "$p" quick --n "${1:-300}" || rc=2
 done
+/verif/tools/c15_miri.py determinism 24 || rc=2
 exit $rc
